@@ -17,7 +17,7 @@ from ..model import AnalysisError, Func, norm_stmt, parent
 from ..paths import PathFinder, describe_path
 from ..terms import contains, show, subterms
 from ..util import calls_in, nodes_in
-from .c14 import ABORT, ExcFlow, calls_reaching, ensemble_calculate, optimizer_callbacks, step_run_methods
+from .c14 import ABORT, ExcFlow, abort_edges_only, calls_reaching, ensemble_calculate, optimizer_callbacks, step_run_methods
 
 P = "C15"
 PLAN = "ropt.plan._plan.Plan"
@@ -96,8 +96,9 @@ def c15_1(ctx: Ctx) -> RuleResult:
                     construct=f"{cname}: START before {norm_stmt(c)[:70]}")
         # FINISHED on every normal path from START
         ok, wit = True, []
+        aeo = abort_edges_only(ctx, run)
         for sn in start_nodes:
-            path = pf.find_path(sn, lambda m: m is cfg.exit, blocked=lambda m: m in fin_nodes)
+            path = pf.find_path(sn, lambda m: m is cfg.exit, blocked=lambda m: m in fin_nodes, edge_ok=aeo)
             if path is not None:
                 ok, wit = False, describe_path(run, path)
         res.add(run, fins[0][0], "every normal return after START passes the FINISHED step event", ok,
@@ -121,7 +122,7 @@ def c15_1(ctx: Ctx) -> RuleResult:
                             "" if p1 is None else "evaluation without a preceding START_EVALUATION", [] if p1 is None else describe_path(run, p1),
                             construct=f"{cname}: START_EVALUATION before calculate")
                     p2 = pf.find_path(n, lambda m: m is cfg.exit, blocked=lambda m: m in fe,
-                                      edge_ok=lambda a, b, lab, n=n: not (a is n and lab == "exc"))
+                                      edge_ok=lambda a, b, lab, n=n: not (a is n and lab == "exc") and aeo(a, b, lab))
                     res.add(run, c, "FINISHED_EVALUATION is emitted after the evaluation on every normal path", p2 is None,
                             "" if p2 is None else "a started evaluation may never be reported as finished", [] if p2 is None else describe_path(run, p2),
                             construct=f"{cname}: FINISHED_EVALUATION after calculate")
@@ -359,7 +360,7 @@ def c15_3(ctx: Ctx) -> RuleResult:
         ok, wit = True, []
         for w in work:
             for n in cfg.node_containing(w):
-                path = pf.find_path(n, lambda m: m is cfg.exit, blocked=lambda m: m in tn, edge_ok=lambda a, b, lab, n=n: not (a is n and lab == "exc"))
+                path = pf.find_path(n, lambda m: m is cfg.exit, blocked=lambda m: m in tn, edge_ok=abort_edges_only(ctx, run))
                 if path is not None:
                     ok, wit = False, describe_path(run, path)
         res.add(run, aborts[0], "every normal return after the work passes the USER_ABORT test that latches the plan", ok,
